@@ -56,6 +56,9 @@ structure Lead where
   queued : List (Nat × CF.Change)       -- membership calls blocked on the gate
   verifies : List Verify
   hbs : List Hb
+  now : Nat := 0                        -- virtual milliseconds since the loop started
+  leaseAt : Nat := 250                  -- when the lease timer is due
+  contact : List (Nat × Nat) := []      -- follower ↦ time of its last answer (`lastContact`)
 deriving Repr
 
 def voterIds (c : Config) : List Nat := (c.filter (fun s => s.suffrage = .voter)).map (·.id)
@@ -88,6 +91,7 @@ inductive LEvent
   | rpc (e : Event)                               -- a request from another server
   | heartbeatTimeout                              -- the follower loop's timer fires without recent contact
   | idle                                          -- time passes and nothing is due
+  | tick                                          -- the leader loop: 250 ms pass
 deriving Repr
 
 /-! ## pieces -/
@@ -185,7 +189,11 @@ def restartPeers (l : Lead) (c : Config) : Lead :=
   { l with peers := ps,
            hbs := ps.map (fun p => match l.hbs.find? (·.peer = p) with
                                    | some h => h
-                                   | none => ⟨p, none, [], false⟩) }
+                                   | none => ⟨p, none, [], false⟩),
+           -- a new routine starts with `lastContact = now`
+           contact := ps.map (fun p => match l.contact.find? (·.1 = p) with
+                                       | some c => c
+                                       | none => (p, l.now)) }
 
 /-- `appendConfigurationEntry` -/
 def appendConfig (cf : Cfg) (a : Acc) (id : Nat) (ch : CF.Change) (fail : Bool) : Acc :=
@@ -280,6 +288,45 @@ def hbStep (a : Acc) (peer : Nat) (ans : HbAnswer) : Acc :=
         let h' : Hb := if h.waiting = [] then { h with carrying := none } else { h with carrying := some h.waiting, waiting := [] }
         voteNo { a with lead := setHb h' a.lead } ids
 
+/-! ## the lease (raft.go: `checkLeaderLease` and the timer in `leaderLoop`) -/
+
+def leaseMs : Nat := 250        -- LeaderLeaseTimeout of the stepped instance (HeartbeatTimeout is 1000)
+def minCheckMs : Nat := 10      -- minCheckInterval
+def tickMs : Nat := 250
+
+def touch (l : Lead) (p : Nat) : Lead :=
+  { l with contact := l.contact.map (fun c => if c.1 = p then (p, l.now) else c) }
+
+/-- `checkLeaderLease` at time `t`: the voters heard from within the lease (the leader itself
+    counts if it is one), and the longest such silence -/
+def leaseCount (v : Vol) (l : Lead) (t : Nat) : Nat × Nat :=
+  v.latest.foldl (fun (acc : Nat × Nat) s =>
+    if s.suffrage = .voter then
+      if s.id = selfId then (acc.1 + 1, acc.2)
+      else
+        let diff := t - ((l.contact.find? (·.1 = s.id)).map (·.2)).getD 0
+        if diff ≤ leaseMs then (acc.1 + 1, max acc.2 diff) else acc
+    else acc) (0, 0)
+
+/-- the lease checks that fall due up to `now`: each either deposes the leader (fewer voters heard
+    from than a quorum) or re-arms the timer to `lease - maxDiff`, at least `minCheckInterval` -/
+def leaseLoop : Nat → Acc → Acc
+  | 0, a => a
+  | fuel + 1, a =>
+    if a.v.role ≠ .leader ∨ a.lead.leaseAt > a.lead.now then a
+    else
+      let r := leaseCount a.v a.lead a.lead.leaseAt
+      let a1 : Acc := { a with lead := { a.lead with leaseAt := a.lead.leaseAt + max (leaseMs - r.2) minCheckMs } }
+      if r.1 < quorumOf a.v.latest then { a1 with v := { a1.v with role := .follower } }
+      else leaseLoop fuel a1
+
+/-- 250 ms pass: every idle heartbeat routine has sent its next heartbeat (carrying whatever was
+    registered with it), and the lease checks that fell due have run -/
+def tickStep (a : Acc) : Acc :=
+  let l1 : Lead := { a.lead with now := a.lead.now + tickMs,
+                                  hbs := a.lead.hbs.map (fun h => if h.carrying.isNone ∧ ¬ h.dead then { h with carrying := some h.waiting, waiting := [] } else h) }
+  leaseLoop 40 { a with lead := l1 }
+
 /-! ## API calls -/
 
 /-- split off the first `n` -/
@@ -362,7 +409,7 @@ def stepLeader (lw : LWorld) (e : LEvent) : LWorld × LObs :=
   match lw.lead, e with
   | none, .start =>
     if lw.w.v.role ≠ .leader then (lw, idleObs lw.w) else
-    let l0 : Lead := restartPeers ⟨newCommitment lw.w.v.latest (lastIndex lw.w.v + 1), [], [], false, [], [], []⟩ lw.w.v.latest
+    let l0 : Lead := restartPeers { cm := newCommitment lw.w.v.latest (lastIndex lw.w.v + 1), inflight := [], peers := [], stepDown := false, queued := [], verifies := [], hbs := [] } lw.w.v.latest
     let r := dispatch lw.w.cf (accOf lw.w l0) [(0, 1, 0, [])] false
     finish lw (settleAll lw.w.cf r.1)
   | none, .rpc ev =>
@@ -381,9 +428,11 @@ def stepLeader (lw : LWorld) (e : LEvent) : LWorld × LObs :=
   | some _, .idle => (lw, idleObs lw.w)
   | some l, .calls cs failAt => finish lw (callStep lw.w.cf (accOf lw.w l) cs failAt)
   | some l, .ack peer idx =>
-    finish lw (settleAll lw.w.cf { accOf lw.w l with lead := { l with cm := CM.matchOp l.cm peer idx } })
+    finish lw (settleAll lw.w.cf { accOf lw.w l with lead := touch { l with cm := CM.matchOp l.cm peer idx } peer })
+  | some l, .tick => finish lw (tickStep (accOf lw.w l))
   | some l, .deposed => finish lw { accOf lw.w l with v := { lw.w.v with role := .follower } }
-  | some l, .hb peer ans => finish lw (hbStep (accOf lw.w l) peer ans)
+  | some l, .hb peer ans =>
+    finish lw (hbStep (accOf lw.w (if ans = .fail then l else touch l peer)) peer ans)
   | some l, .rpc ev =>
     let r := stepEvent lw.w ev
     if r.2.dead ∨ r.2.panic then (⟨r.1, none⟩, ⟨r.2, []⟩)
